@@ -390,6 +390,10 @@ class Method:
             params.append((p.arg, TYPES[ann]))
         return params
 
+    def predeclare_name(self, name: str, first_assignment: ast.AST) -> str | None:
+        """hook: the Lean name under which a local assigned inside a nested block is pre-declared (None: not a Lean local)"""
+        return name
+
     def render(self) -> str:
         fn = self.fn
         params = self.params()
@@ -408,7 +412,8 @@ class Method:
                 self.emit(1, f"let mut {n} := {n}")
                 self.declared.add(n)
         for n in assigned:
-            if n not in self.declared and n not in top_level:
+            n = self.predeclare_name(n, assigned[n])
+            if n is not None and n not in self.declared and n not in top_level:
                 self.emit(1, f"let mut {n} : {self.local_type(n)} := default")
                 self.declared.add(n)
         self.block(1, fn.body)
